@@ -230,6 +230,22 @@ def run_case(scn, drv):
     own = -float(np.dot(rs['op'].c, rs['res'].x))
     if abs(own - Vs) > tol:
         viol('split value %.8g but minus joint cost times joint solution is %.8g' % (Vs, own), what='value')
+    # options of optimize reach every interval: the relaxed split optimum (make_soft_problem) is the sum of the relaxed interval optima
+    if any(pf.is_mip(o) for o in ops):
+        try:
+            tot_s = 0.0
+            for o in ops:
+                ro = impl.solve(copy.deepcopy(o), make_soft_problem=True)
+                tot_s = None if (isinstance(ro, str) or tot_s is None) else tot_s + float(ro.value)
+            with Quiet():
+                rsoft = rs['op'].optimize(make_soft_problem=True)
+            r['evaluated'] += 1
+            if tot_s is not None and not isinstance(rsoft, str):
+                feats.append('split-soft')
+                if abs(float(rsoft.value) - tot_s) > 2e-6 * max(1.0, abs(tot_s)):
+                    viol('split optimisation with make_soft_problem: value %.8g, sum of the relaxed interval optima %.8g (split value with integrality %.8g)' % (float(rsoft.value), tot_s, Vs), what='soft_sum')
+        except Exception as e:
+            feats.append('split-soft-error:' + impl.err_class(e))
     # nodal balance and value accounting on the original grid
     v, nt = pf.orc_nodal_balance(rs, tag='split')
     r['violations'] += v
